@@ -1480,6 +1480,13 @@ fn catalogue_inner(prop: &str, t: Tier, seed: u64, out: &mut Vec<Entry>) {
                     out.push(en);
                 }
             }
+            // a zero polynomial (an all-zero row of claimed evaluations) inside the batch, followed by non-zero ones
+            for (n, m, k, z) in if quick { vec![(3usize, 2usize, 2usize, 0usize), (3, 2, 3, 1)] } else { vec![(3usize, 2usize, 2usize, 0usize), (3, 2, 3, 1), (4, 3, 3, 0), (3, 1, 2, 0)] } {
+                let mut en = e(format!("multi/zero-poly@{}-n{}-pts{}-polys{}", z, n, m, k), t, "coefficients of the other polynomials, distinct points, eta (!= 0), delta", format!("{} coefficients, {} points, {} polynomials, polynomial {} is zero", n, m, k, z), move || c14::multi_z(n, m, k, 1 << 20, seed, Some(z)));
+                en.funcs = f.clone();
+                if quick { en.lim.wall_s = 45.0; }
+                out.push(en);
+            }
             let maxn = if quick { 9 } else { 17 };
             let maxk = if quick { 3 } else { 4 };
             for n in 1..=maxn {
